@@ -94,7 +94,7 @@ Lemma tlvset_scan_total : forall fuel buf total n,
 Proof.
   induction fuel; intros buf total n H; cbn [tlvset_scan] in H.
   - destruct (Nat.eqb_spec (length buf) 0); [|discriminate]. injection H as <-. lia.
-  - destruct (Z.ltb_spec 4 (blen buf)) as [H4|H4].
+  - destruct (Z.leb_spec 4 (blen buf)) as [H4|H4].
     + set (len := be_decode (slice 2 2 buf)) in *.
       destruct (len mod 2 =? 1); [discriminate|].
       destruct (Z.ltb_spec (blen buf) (4 + len)) as [Hs|Hs]; [discriminate|].
@@ -921,25 +921,8 @@ Qed.
 
 (** * 7. The implementation's TLV scanner against the TLV framing of WireSpec *)
 
-Definition last_empty (l : list (Z * octets)) : bool :=
-  match rev l with (_, []) :: _ => true | _ => false end.
 Definition tlv_list (ts : list tlv) : list (Z * octets) :=
   map (fun t => (tlv_type t, tlv_value t)) ts.
-
-Lemma spec_tlvs_nil fuel a : spec_tlvs_fuel fuel a = Some [] -> a = [].
-Proof.
-  destruct a as [|x a]; [reflexivity|]. destruct fuel; cbn [spec_tlvs_fuel]; [discriminate|].
-  destruct (_ <? 4)%nat; [discriminate|]. destruct (Z.odd _); [discriminate|].
-  destruct (_ <? _)%nat; [discriminate|]. destruct (spec_tlvs_fuel _ _); discriminate.
-Qed.
-
-Lemma last_empty_cons x l : l <> [] -> last_empty (x :: l) = last_empty l.
-Proof.
-  intros H. unfold last_empty. cbn [rev].
-  destruct (rev l) as [|y r] eqn:E.
-  - apply (f_equal (@rev _)) in E. rewrite rev_involutive in E. contradiction.
-  - reflexivity.
-Qed.
 
 Lemma spec_tlvs_step fuel (a : octets) :
   a <> [] ->
@@ -953,15 +936,15 @@ Lemma spec_tlvs_step fuel (a : octets) :
        end.
 Proof. destruct a; [contradiction|]. reflexivity. Qed.
 
+(** The scanner (TlvSet::deserialize, since the repair of F5) accepts exactly
+    the octet strings that are sequences of whole TLVs with even length
+    fields, and the iterator (TlvSetIterator) then yields exactly those TLVs. *)
 Lemma scan_spec : forall fuel buf total,
   bok buf -> (length buf <= fuel)%nat ->
   match tlvset_scan fuel buf total with
   | ROk _ =>
-      exists l, spec_tlvs_fuel fuel buf = Some l /\ last_empty l = false /\
-                tlv_list (tlvset_iter fuel buf) = l
-  | RErr e =>
-      spec_tlvs_fuel fuel buf = None \/
-      exists l, spec_tlvs_fuel fuel buf = Some l /\ last_empty l = true /\ e = EBufferTooShort
+      exists l, spec_tlvs_fuel fuel buf = Some l /\ tlv_list (tlvset_iter fuel buf) = l
+  | RErr _ => spec_tlvs_fuel fuel buf = None
   end.
 Proof.
   induction fuel; intros buf total Hb Hf.
@@ -972,56 +955,33 @@ Proof.
     assert (Hne : buf <> []) by discriminate.
     cbn [tlvset_scan tlvset_iter]. rewrite spec_tlvs_step by assumption.
     unfold blen.
-    destruct (Z.ltb_spec 4 (Z.of_nat (length buf))) as [H4|H4].
-    + (* more than four octets: a TLV header is parsed *)
+    destruct (Z.leb_spec 4 (Z.of_nat (length buf))) as [H4|H4].
+    + (* at least four octets: a TLV header is parsed *)
       destruct (Nat.ltb_spec (length buf) 4); [lia|].
       rewrite (uint_be_slice buf 2 2) by lia. rewrite (uint_be_slice buf 2 0) by lia.
       set (LF := be_decode (slice 2 2 buf)).
       assert (HLF : 0 <= LF < 65536).
       { pose proof (slice_bound 2 2 buf Hb) as B. rewrite P2 in B. exact B. }
       rewrite (Zmod_odd LF).
-      destruct (Z.odd LF); [left; reflexivity|]. cbn [Z.eqb].
+      destruct (Z.odd LF); [reflexivity|].
       change (0 =? 1) with false. cbv iota.
       destruct (Z.ltb_spec (Z.of_nat (length buf)) (4 + LF)) as [Hs|Hs].
-      * destruct (Nat.ltb_spec (length buf) (4 + Z.to_nat LF)); [|lia]. left; reflexivity.
+      * destruct (Nat.ltb_spec (length buf) (4 + Z.to_nat LF)); [|lia]. reflexivity.
       * destruct (Nat.ltb_spec (length buf) (4 + Z.to_nat LF)); [lia|].
-        destruct (Z.leb_spec (Z.of_nat (length buf)) 4); [lia|].
+        destruct (Z.ltb_spec (Z.of_nat (length buf)) 4); [lia|].
         set (rest := skipn (4 + Z.to_nat LF) buf).
         assert (Hr : (length rest <= fuel)%nat).
         { unfold rest. rewrite skipn_length. cbn [length] in Hf. unfold buf in *. cbn [length] in *. lia. }
         specialize (IHfuel rest (total + 4 + Z.to_nat LF)%nat (bok_skipn _ _ Hb) Hr).
         destruct (tlvset_scan fuel rest (total + 4 + Z.to_nat LF)) as [n|e].
-        -- destruct IHfuel as (l & Hl & Hle & Hit). rewrite Hl.
-           eexists. split; [reflexivity|]. split.
-           ++ destruct l as [|y l].
-              ** apply spec_tlvs_nil in Hl. unfold last_empty. cbn [rev app].
-                 assert (Hlen : (length rest = 0)%nat) by (rewrite Hl; reflexivity).
-                 unfold rest in Hlen. rewrite skipn_length in Hlen.
-                 destruct (Z.to_nat LF) as [|k] eqn:Ek; [lia|].
-                 rewrite sub_cons. reflexivity.
-              ** rewrite last_empty_cons by discriminate. exact Hle.
-           ++ unfold tlv_list in *. cbn [map tlv_type tlv_value]. rewrite Hit.
-              unfold canon_tlv_type. rewrite sub_slice by lia. reflexivity.
-        -- destruct IHfuel as [Hn|(l & Hl & Hle & He)].
-           ++ left. rewrite Hn. reflexivity.
-           ++ right. rewrite Hl. eexists. split; [reflexivity|]. split; [|exact He].
-              rewrite last_empty_cons; [exact Hle|]. intros ->. discriminate.
-    + (* at most four octets left *)
+        -- destruct IHfuel as (l & Hl & Hit). rewrite Hl.
+           eexists. split; [reflexivity|].
+           unfold tlv_list in *. cbn [map tlv_type tlv_value]. rewrite Hit.
+           unfold canon_tlv_type. rewrite sub_slice by lia. reflexivity.
+        -- rewrite IHfuel. reflexivity.
+    + (* one to three octets left *)
       destruct (Nat.eqb_spec (length buf) 0); [unfold buf in *; discriminate|].
-      destruct (Nat.ltb_spec (length buf) 4) as [H3|H3]; [left; reflexivity|].
-      assert (Hl4 : length buf = 4%nat) by lia.
-      rewrite (uint_be_slice buf 2 2) by lia. rewrite (uint_be_slice buf 2 0) by lia.
-      set (LF := be_decode (slice 2 2 buf)).
-      assert (HLF : 0 <= LF < 65536).
-      { pose proof (slice_bound 2 2 buf Hb) as B. rewrite P2 in B. exact B. }
-      destruct (Z.odd LF); [left; reflexivity|].
-      destruct (Nat.ltb_spec (length buf) (4 + Z.to_nat LF)); [left; reflexivity|].
-      assert (HLF0 : Z.to_nat LF = 0%nat) by lia. rewrite HLF0.
-      assert (Hrest : skipn (4 + 0) buf = []).
-      { apply length_zero_iff_nil. rewrite skipn_length. lia. }
-      rewrite Hrest. right.
-      replace (spec_tlvs_fuel fuel []) with (Some (@nil (Z * octets))) by (destruct fuel; reflexivity).
-      eexists. split; [reflexivity|]. split; reflexivity.
+      destruct (Nat.ltb_spec (length buf) 4) as [H3|H3]; [reflexivity|lia].
 Qed.
 
 (** the message types and body lengths of WireSpec are those of the model *)
@@ -1052,41 +1012,39 @@ Proof.
 Qed.
 
 (** Soundness and completeness of the decoder with respect to the frame
-    format of WireSpec, and what exactly F5 rejects. *)
+    format of WireSpec. *)
 Lemma decode_vs_spec b :
   bok b ->
   match decode b with
   | ROk m =>
-      spec_wellformed b = true /\ last_tlv_empty b = false /\
+      spec_wellformed b = true /\
       spec_tlv_area b = m_suffix m /\ spec_tlv_summary b = Some (tlv_summary (m_suffix m))
-  | RErr e =>
-      spec_wellformed b = false \/
-      (spec_wellformed b = true /\ last_tlv_empty b = true /\ e = EBufferTooShort)
+  | RErr _ => spec_wellformed b = false
   end.
 Proof.
   intros Hb. rewrite decode_eq.
-  unfold spec_wellformed, last_tlv_empty, spec_tlv_summary, spec_tlv_area.
+  unfold spec_wellformed, spec_tlv_summary, spec_tlv_area.
   unfold blen.
   destruct (Z.ltb_spec (Z.of_nat (length b)) 34) as [H34|H34].
-  { destruct (Nat.leb_spec 34 (length b)); [lia|]. left; reflexivity. }
+  { destruct (Nat.leb_spec 34 (length b)); [lia|]. reflexivity. }
   destruct (Nat.leb_spec 34 (length b)); [|lia].
   assert (Hnib : 0 <= byte_at 0 b mod 16 < 16) by (apply Z.mod_pos_bound; lia).
   pose proof (body_len_table _ Hnib) as Htab.
   unfold spec_msg_type, oct. fold (byte_at 0 b).
   destruct (msg_type_of_nibble (byte_at 0 b mod 16)) as [t|];
     destruct (spec_body_len (byte_at 0 b mod 16)) as [bl|]; try contradiction;
-    [|left; reflexivity].
+    [|reflexivity].
   subst bl. rewrite (uint_be_slice b 2 2) by lia. fold (mlen b).
   pose proof (mlen_bound b Hb) as HLb.
   assert (Hbs : 0 <= type_body_size t <= 30) by (destruct t; cbn; lia).
   destruct (Z.ltb_spec (mlen b) 34).
-  { destruct (Nat.leb_spec (34 + Z.to_nat (type_body_size t)) (Z.to_nat (mlen b))); [lia|]. left; reflexivity. }
+  { destruct (Nat.leb_spec (34 + Z.to_nat (type_body_size t)) (Z.to_nat (mlen b))); [lia|]. reflexivity. }
   destruct (Z.ltb_spec (Z.of_nat (length b)) (mlen b)).
-  { destruct (Nat.leb_spec (34 + Z.to_nat (type_body_size t)) (Z.to_nat (mlen b))); [|left; reflexivity].
-    destruct (Nat.leb_spec (Z.to_nat (mlen b)) (length b)); [lia|]. left; reflexivity. }
+  { destruct (Nat.leb_spec (34 + Z.to_nat (type_body_size t)) (Z.to_nat (mlen b))); [|reflexivity].
+    destruct (Nat.leb_spec (Z.to_nat (mlen b)) (length b)); [lia|]. reflexivity. }
   pose proof (content_length b ltac:(unfold blen; lia)) as Hcl. unfold blen in Hcl. rewrite Hcl.
   destruct (Z.ltb_spec (mlen b - 34) (type_body_size t)).
-  { destruct (Nat.leb_spec (34 + Z.to_nat (type_body_size t)) (Z.to_nat (mlen b))); [lia|]. left; reflexivity. }
+  { destruct (Nat.leb_spec (34 + Z.to_nat (type_body_size t)) (Z.to_nat (mlen b))); [lia|]. reflexivity. }
   destruct (Nat.leb_spec (34 + Z.to_nat (type_body_size t)) (Z.to_nat (mlen b))); [|lia].
   destruct (Nat.leb_spec (Z.to_nat (mlen b)) (length b)); [|lia].
   rewrite tlv_area_eq by lia.
@@ -1095,13 +1053,11 @@ Proof.
   unfold decode_tlvset, spec_tlvs.
   pose proof (scan_spec (length tb) tb 0%nat Htb (le_n _)) as Hsc.
   destruct (tlvset_scan (length tb) tb 0) as [n|e] eqn:Escan; cbn [rbind].
-  - destruct Hsc as (l & Hl & Hle & Hit). rewrite Hl.
+  - destruct Hsc as (l & Hl & Hit). rewrite Hl.
     apply tlvset_scan_total in Escan. subst n. cbn [Nat.add]. rewrite firstn_all.
-    cbn [m_suffix]. fold (last_empty l). repeat split; auto.
+    cbn [m_suffix]. repeat split; auto.
     unfold tlv_summary, tlvs_of. rewrite <- Hit. unfold tlv_list. rewrite map_map. reflexivity.
-  - destruct Hsc as [Hn|(l & Hl & Hle & He)].
-    + left. rewrite Hn. reflexivity.
-    + right. rewrite Hl. fold (last_empty l). auto.
+  - rewrite Hsc. reflexivity.
 Qed.
 
 (** * 8. The uniform statement *)
@@ -1159,9 +1115,9 @@ Proof.
   intros Hb Hd.
   destruct (reencode b m Hb Hd) as (Hd' & Hlen & Hf).
   destruct (decode_wf _ _ Hb Hd) as [Hwf Hsz].
-  pose proof (decode_vs_spec b Hb) as Hvb. rewrite Hd in Hvb. destruct Hvb as (_ & _ & Hab & _).
+  pose proof (decode_vs_spec b Hb) as Hvb. rewrite Hd in Hvb. destruct Hvb as (_ & Hab & _).
   pose proof (decode_vs_spec _ (encode_raw_bok m Hwf)) as Hvr. rewrite Hd' in Hvr.
-  destruct Hvr as (_ & _ & Har & _).
+  destruct Hvr as (_ & Har & _).
   unfold reenc_ok.
   rewrite (spec_len_mlen b m Hb Hd), encode_raw_length, Z.eqb_refl.
   assert (Hall : forallb (same_field b (encode_raw m)) (spec_fields (spec_msg_type b)) = true).
@@ -1170,16 +1126,13 @@ Proof.
 Qed.
 
 Theorem C04_all b sizes :
-  bok b ->
-  kf_C04 (b, run_C04 b sizes) = 0 ->
-  ok_C04 b (run_C04 b sizes) = true.
+  bok b -> ok_C04 b (run_C04 b sizes) = true.
 Proof.
-  intros Hb Hkf. unfold ok_C04, run_C04 in *. cbn [o_local o_res fst snd] in *.
-  unfold kf_C04 in Hkf. cbn [o_res fst snd] in Hkf.
+  intros Hb. unfold ok_C04, run_C04 in *. cbn [o_local o_res fst snd] in *.
   rewrite run_local_true. cbn [andb].
   pose proof (decode_vs_spec b Hb) as Hv.
   destruct (decode b) as [m|e] eqn:Hd.
-  - destruct Hv as (Hwf & Hle & Harea & Hsum).
+  - destruct Hv as (Hwf & Harea & Hsum).
     rewrite Hwf, Hsum, zz_list_eqb_refl.
     destruct (reencode b m Hb Hd) as (Hd' & Hlen & _).
     rewrite Hd', res_eqb_refl. cbn [andb].
@@ -1195,30 +1148,19 @@ Proof.
     unfold probe_of, encode. destruct (Z.ltb_spec n (wire_size m)).
     + reflexivity.
     + rewrite Hre. apply andb_true_iff. split; [apply Z.leb_le; assumption | reflexivity].
-  - destruct Hv as [Hn|(Hwf & Hle & ->)].
-    + rewrite Hn. reflexivity.
-    + rewrite Hwf, Hle in Hkf. discriminate.
+  - rewrite Hv. reflexivity.
 Qed.
 
-(** F5: the full statement (without the known-finding hypothesis) is false. *)
-Definition f5_frame : bytes :=
-  encode_raw (mkMsg (header_new 1) (BSync ts_zero) [0; 8; 0; 0]).
+(** the uniform shape [kf = 0 -> ok = true] (no finding is excused any more) *)
+Corollary C04_all_kf b sizes :
+  bok b -> kf_C04 (b, run_C04 b sizes) = 0 -> ok_C04 b (run_C04 b sizes) = true.
+Proof. intros Hb _. apply C04_all, Hb. Qed.
 
-Lemma f5_refuted :
-  octets_ok f5_frame = true /\ spec_wellformed f5_frame = true /\
-  decode f5_frame = RErr EBufferTooShort /\
-  ok_C04 f5_frame (run_C04 f5_frame []) = false /\
-  kf_C04 (f5_frame, run_C04 f5_frame []) = 1.
-Proof. vm_compute. repeat split; reflexivity. Qed.
-
-(** [encode_decode] over TLV lists: the serializer's output for a list of
-    TLVs is accepted by the scanner iff the last TLV is not empty. *)
+(** * 9. TLV lists: the serializer's output is accepted by the scanner *)
 Definition tlv_wf (t : tlv) : Prop :=
   0 <= tlv_type t < 65536 /\ bok (tlv_value t) /\ blen (tlv_value t) < 65536 /\
   blen (tlv_value t) mod 2 = 0.
 Definition encode_tlvs (ts : list tlv) : bytes := concat (map encode_tlv ts).
-Definition last_value_nonempty (ts : list tlv) : Prop :=
-  match rev ts with t :: _ => tlv_value t <> [] | [] => True end.
 
 Lemma encode_tlv_length t : length (encode_tlv t) = (4 + length (tlv_value t))%nat.
 Proof. unfold encode_tlv. rewrite !app_length, !be_encode_length. lia. Qed.
@@ -1236,19 +1178,11 @@ Proof.
   apply bok_app; [apply encode_tlv_bok; assumption|assumption].
 Qed.
 
-Lemma last_value_nonempty_tail t t' ts :
-  last_value_nonempty (t :: t' :: ts) -> last_value_nonempty (t' :: ts).
-Proof.
-  unfold last_value_nonempty. cbn [rev].
-  destruct (rev ts ++ [t']) as [|x r] eqn:E; [destruct (rev ts); discriminate|].
-  cbn [app]. auto.
-Qed.
-
 Lemma scan_encode_tlvs : forall ts fuel total,
-  Forall tlv_wf ts -> last_value_nonempty ts -> (length (encode_tlvs ts) <= fuel)%nat ->
+  Forall tlv_wf ts -> (length (encode_tlvs ts) <= fuel)%nat ->
   tlvset_scan fuel (encode_tlvs ts) total = ROk (total + length (encode_tlvs ts))%nat.
 Proof.
-  induction ts as [|t ts IH]; intros fuel total Hwf Hlast Hf.
+  induction ts as [|t ts IH]; intros fuel total Hwf Hf.
   - cbn [encode_tlvs map concat length]. rewrite Nat.add_0_r. destruct fuel; reflexivity.
   - inversion Hwf as [|? ? Ht Hts]; subst.
     destruct Ht as (Hty & Hv & Hvl & Heven).
@@ -1256,16 +1190,9 @@ Proof.
     set (rest := encode_tlvs ts) in *.
     assert (Hlen : length (encode_tlv t ++ rest) = (4 + length (tlv_value t) + length rest)%nat)
       by (rewrite app_length, encode_tlv_length; reflexivity).
-    assert (Hbig : (4 < length (encode_tlv t ++ rest))%nat).
-    { rewrite Hlen. destruct ts as [|t' ts'].
-      - unfold last_value_nonempty in Hlast. cbn [rev app] in Hlast.
-        destruct (tlv_value t) as [|x [|y v]]; [contradiction| |cbn [length]; lia].
-        unfold blen in Heven. cbn [length] in Heven. discriminate.
-      - unfold rest. change (encode_tlvs (t' :: ts')) with (encode_tlv t' ++ encode_tlvs ts').
-        rewrite app_length, encode_tlv_length. lia. }
     destruct fuel as [|fuel]; [lia|].
     cbn [tlvset_scan]. unfold blen at 1.
-    destruct (Z.ltb_spec 4 (Z.of_nat (length (encode_tlv t ++ rest)))); [|lia].
+    destruct (Z.leb_spec 4 (Z.of_nat (length (encode_tlv t ++ rest)))); [|lia].
     replace (slice 2 2 (encode_tlv t ++ rest)) with (be_encode 2 (blen (tlv_value t))) by reflexivity.
     rewrite dec_enc_u by (rewrite P2; unfold blen in *; lia).
     rewrite Heven. change (0 =? 1) with false. cbv iota.
@@ -1278,40 +1205,39 @@ Proof.
     rewrite IH.
     + f_equal. rewrite Hlen. lia.
     + assumption.
-    + destruct ts as [|t' ts']; [exact I|]. eapply last_value_nonempty_tail; eassumption.
     + fold rest. lia.
 Qed.
 
-(** The serializer's output for a TLV list whose last value is not empty is
-    accepted unchanged by the scanner ... *)
+(** The serializer's output for ANY list of TLVs with even-length values
+    (including empty values, in any position) is accepted unchanged. *)
 Theorem encode_tlvs_accepted ts :
-  Forall tlv_wf ts -> last_value_nonempty ts ->
-  decode_tlvset (encode_tlvs ts) = ROk (encode_tlvs ts).
+  Forall tlv_wf ts -> decode_tlvset (encode_tlvs ts) = ROk (encode_tlvs ts).
 Proof.
-  intros Hwf Hlast. unfold decode_tlvset.
+  intros Hwf. unfold decode_tlvset.
   rewrite scan_encode_tlvs by (auto || lia). cbn [rbind Nat.add]. rewrite firstn_all. reflexivity.
 Qed.
 
 Theorem encode_decode_tlvs h bd ts :
-  wf_header h -> wf_body bd -> Forall tlv_wf ts -> last_value_nonempty ts ->
+  wf_header h -> wf_body bd -> Forall tlv_wf ts ->
   34 + body_size bd + blen (encode_tlvs ts) < 65536 ->
   decode (encode_raw (mkMsg h bd (encode_tlvs ts))) = ROk (mkMsg h bd (encode_tlvs ts)).
 Proof.
-  intros Hh Hb Hts Hlast Hsz. apply encode_decode. unfold wf_msg; cbn [m_header m_body m_suffix].
+  intros Hh Hb Hts Hsz. apply encode_decode. unfold wf_msg; cbn [m_header m_body m_suffix].
   split; [exact Hh|]. split; [exact Hb|]. split; [split|exact Hsz].
   - apply encode_tlvs_bok, Hts.
   - apply encode_tlvs_accepted; assumption.
 Qed.
 
-(** ... and F5: without the hypothesis on the last TLV the statement is false. *)
-Lemma encode_decode_tlvs_refuted :
-  let ts := [mkTlv 8 []] in
-  Forall tlv_wf ts /\
-  wire_size (mkMsg (header_new 1) (BSync ts_zero) (encode_tlvs ts)) = 48 /\
-  decode (encode_raw (mkMsg (header_new 1) (BSync ts_zero) (encode_tlvs ts)))
-    = RErr EBufferTooShort.
-Proof.
-  cbv zeta. split.
-  - constructor; [|constructor]. unfold tlv_wf; cbn [tlv_type tlv_value]. split; [lia|]. split; [constructor|]. split; reflexivity.
-  - split; vm_compute; reflexivity.
-Qed.
+(** F5 (repaired in /repo by 4fcd0b5): a Sync message carrying one PATH_TRACE
+    TLV with an empty value.  Before the repair the parser rejected this
+    frame with BufferTooShort; it is now a positive example. *)
+Definition f5_msg : message := mkMsg (header_new 1) (BSync ts_zero) (encode_tlvs [mkTlv 8 []]).
+Definition f5_frame : bytes := encode_raw f5_msg.
+
+Lemma f5_accepted :
+  octets_ok f5_frame = true /\ spec_wellformed f5_frame = true /\
+  blen f5_frame = 48 /\
+  decode f5_frame = ROk f5_msg /\
+  tlvs_of (m_suffix f5_msg) = [mkTlv 8 []] /\
+  ok_C04 f5_frame (run_C04 f5_frame [47; 48]) = true.
+Proof. vm_compute. repeat split; reflexivity. Qed.
